@@ -86,8 +86,8 @@ PROPS['C19'] = {
 }
 PROPS['C04'] = {
     'level': 'exploration',
-    'passes': [{'variant': 'asan', 'binary': 'cfg', 'runs': [12000, 400000], 'deadline_s': [150, 2400], 'tag': 'gcc'},
-               {'variant': 'casan', 'binary': 'cfg', 'runs': [6000, 200000], 'deadline_s': [150, 2400], 'tag': 'clang'}],
+    'passes': [{'variant': 'asan', 'binary': 'cfg', 'runs': [16000, 400000], 'deadline_s': [150, 2400], 'tag': 'gcc'},
+               {'variant': 'casan', 'binary': 'cfg', 'runs': [8000, 200000], 'deadline_s': [150, 2400], 'tag': 'clang'}],
     'crash_property': 'C04',
     'rule': ("one evaluation = one seeded scene biased to the geometry the property lists (1-pixel and >32767-pixel images, request rectangles partly or wholly outside, "
              "offsets near +-2^15, extreme scale / translation / near-singular projective transforms, convolution kernels, trapezoids with endpoints at +-32767.99, glyphs half "
